@@ -36,7 +36,11 @@ Part == << <<"w", <<NText("w" \o Wide)>>>>,
            \* a template that extends a layout and includes itself from the block it overrides
            <<"lay", <<NText("["), Block("z", FALSE, <<NText("lz")>>), NText("]")>>>>,
            <<"xs", <<Extends("lay"), Block("z", FALSE, <<NText("s"), Include(S("xs"), "none", NilE, "", <<>>)>>)>>>>,
-           <<"xr", <<Extends("lay"), Block("z", FALSE, <<NText("r"), RenderT(S("xr"), "none", NilE, "", <<>>)>>)>>>> >>
+           <<"xr", <<Extends("lay"), Block("z", FALSE, <<NText("r"), RenderT(S("xr"), "none", NilE, "", <<>>)>>)>>>>,
+           \* loops around `block.super` over a parent block that loops: one nest across the chain
+           <<"lb", <<NText("["), Block("z", FALSE, <<ForN("k", R12, <<Tick>>)>>), NText("]")>>>>,
+           <<"xl", <<Extends("lb"), Block("z", FALSE, <<ForN("i", R13, <<NOut(P(VP("block", "super"))), NText("|")>>)>>)>>>>,
+           <<"xm", <<Extends("xl"), Block("z", FALSE, <<ForN("j", R12, <<NOut(P(VP("block", "super"))), NText(";")>>)>>)>>>> >>
 MCPartials == Part
 MCData == { << <<<<"arr", Arr(<<IntV(1), IntV(2), IntV(3)>>)>>, <<"s", Str("d" \o Wide \o "\r\n")>>>>, <<>>, <<>>, <<>> >> }
 MCCfgs == {[Cfg("+", sup, FALSE, "default") EXCEPT !.shopify = TRUE] : sup \in BOOLEAN}
@@ -70,6 +74,8 @@ Nests == {Wrap(k1, b) : k1 \in Kinds, b \in Inner}
          \cup {Wrap(k1, <<Wrap(k2, b)>>) : k1 \in {"for", "tablerow", "forbreak"}, k2 \in {"for2", "tablerow", "forbreak", "cap"}, b \in Inner}
          \cup {Wrap("for", <<Wrap("for2", <<Wrap("tablerow", b)>>)>>) : b \in {<<Tick>>, <<RenderT(S("lp"), "none", NilE, "", <<>>)>>}}
          \cup {Include(S("itl"), "for", V("arr"), "", <<>>), RenderT(S("itl"), "for", V("arr"), "", <<>>)}
+         \cup {Include(S(t), "none", NilE, "", <<>>) : t \in {"xl", "xm"}} \cup {RenderT(S(t), "none", NilE, "", <<>>) : t \in {"xl", "xm"}}
+         \cup {Wrap(k1, <<Include(S("xl"), "none", NilE, "", <<>>)>>) : k1 \in {"for2", "tablerow"}}
          \* an interrupt raised inside `include ... for` / tablerow nested in a loop, then another loop
          \cup {Wrap("if", <<Wrap(k1, <<Include(S(pt), "for", V("arr"), "", <<>>)>>), ForN("z", R13, <<Tick>>)>>) :
                  k1 \in {"for", "for2"}, pt \in {"itb", "itc"}}
